@@ -92,3 +92,13 @@ func ZVC28SKXLog(kex string, vers uint16, clientRandom, serverRandom []byte, sig
 	}
 	return skx.MakeLog(ka), true, verifyErr
 }
+
+// ZVC28Certificate13Log runs the real TLS 1.3 Certificate parser (certificateMsgTLS13.unmarshal) and its log builder.
+// ocsp / scts report whether a stapled OCSP response / an SCT list was taken from the leaf's extensions.
+func ZVC28Certificate13Log(msg []byte) (log *Certificates, ocsp, scts bool, ok bool) {
+	m := new(certificateMsgTLS13)
+	if !m.unmarshal(msg) {
+		return nil, false, false, false
+	}
+	return m.MakeLog(), m.ocspStapling, m.scts, true
+}
